@@ -9,6 +9,7 @@ import (
 	"io"
 	"os"
 	"strings"
+	"sync"
 
 	"verif/harness/internal/hx"
 
@@ -147,7 +148,8 @@ type fmtResult struct {
 func wantComments(cs []comment) []lexComment {
 	out := []lexComment{}
 	for _, c := range cs {
-		out = append(out, lexComment{M: c.M, Body: commentBody(c), Sp: commentClass(commentText(c))})
+		_, body := canonComment(commentText(c))
+		out = append(out, lexComment{M: c.M, Body: body, Sp: commentClass(commentText(c))})
 	}
 	return out
 }
@@ -367,6 +369,7 @@ func nextWord(toks []string, at int) string {
 func fmtReplay(args []string) int {
 	fs := flag.NewFlagSet("fmtreplay", flag.ExitOnError)
 	events := fs.String("events", "", "write FormatTrace events here")
+	window := fs.Bool("window", false, "also format windows of 3 documents with all results outstanding (sequentially and in goroutines)")
 	fs.Parse(args) // nolint:errcheck
 	out := hx.NewOut()
 	defer out.Close()
@@ -381,12 +384,24 @@ func fmtReplay(args []string) int {
 		evw = json.NewEncoder(f)
 	}
 	n := 0
+	var win []winCase
 	err := hx.Lines(func(line []byte) error {
 		n++
 		r, ev := runCase(line, n <= 3)
 		out.Write(r)
 		if ev != nil && evw != nil {
 			evw.Encode(ev) // nolint:errcheck
+		}
+		if *window {
+			if wc, ok := newWinCase(line, r); ok {
+				win = append(win, wc)
+				if len(win) == 3 {
+					for _, wr := range windowCheck(win, n) {
+						out.Write(wr)
+					}
+					win = win[:0]
+				}
+			}
 		}
 		return nil
 	})
@@ -395,4 +410,122 @@ func fmtReplay(args []string) int {
 		return 2
 	}
 	return 0
+}
+
+// ---- several results of the API outstanding at once -------------------------------------------------------
+// The property speaks about the formatted text for every use of formatter.New(conf).Format: the io.Reader a call
+// returns must keep its text while other documents are formatted (sequentially or in other goroutines).
+
+type winCase struct {
+	id   string
+	b    fmtBehaviour
+	src  string
+	cls  map[string]any
+	want string // semantic projection TLC predicted
+}
+
+func newWinCase(line []byte, r fmtResult) (winCase, bool) {
+	if r.Skip != "" || len(r.MM["C03"])+len(r.Pending["C03"]) > 0 {
+		return winCase{}, false // only cases whose immediate result is fine
+	}
+	var b fmtBehaviour
+	if json.Unmarshal(line, &b) != nil {
+		return winCase{}, false
+	}
+	src, _ := render(decodeToks(b.Toks), b.Cm, &layout{})
+	return winCase{id: r.ID, b: b, src: src, cls: r.Class, want: canon(stripP(generic(b.ExpAst)))}, true
+}
+
+func readAllSafe(r io.Reader) (s string) {
+	defer func() {
+		if e := recover(); e != nil {
+			s = fmt.Sprint("panic: ", e)
+		}
+	}()
+	if r == nil {
+		return ""
+	}
+	b, _ := io.ReadAll(r)
+	return string(b)
+}
+
+func formatReader(v *ast.VCL, c fmtCfg) (r io.Reader) {
+	defer func() {
+		if e := recover(); e != nil {
+			r = nil
+		}
+	}()
+	return formatter.New(c.conf()).Format(v)
+}
+
+// windowCheck formats all documents of the window before reading any result (read back in reverse order), then does
+// the same with one goroutine per document (all formatted before any is read); every text must still re-parse to the
+// tree TLC predicted.
+func windowCheck(win []winCase, n int) []fmtResult {
+	var out []fmtResult
+	judge := func(mode string, texts []string) {
+		for i, w := range win {
+			ok := false
+			if v, err := parseVCL(texts[i]); err == nil {
+				ok = canon(stripP(generic(projectVCL(v)))) == w.want
+			}
+			if ok {
+				continue
+			}
+			r := fmtResult{MM: map[string][]map[string]any{"C03": {{"obs": "outstanding-result-corrupted", "mode": mode}}}}
+			r.ID = w.id + ":" + mode
+			r.Key = r.ID
+			r.Class = map[string]any{"fam": w.cls["fam"], "focus": w.cls["focus"], "opts": w.cls["opts"], "mode": mode}
+			var others []string
+			for j := range win {
+				if j != i {
+					others = append(others, win[j].src)
+				}
+			}
+			r.Input = map[string]any{"window": mode, "src": w.src, "cfg": w.b.Cfg, "formatted_before_reading": others}
+			r.Observed = map[string]any{"text": texts[i]}
+			out = append(out, r)
+		}
+	}
+	parseAll := func() []*ast.VCL {
+		vs := make([]*ast.VCL, len(win))
+		for i, w := range win {
+			vs[i], _ = parseVCL(w.src)
+		}
+		return vs
+	}
+	// sequential: format A, B, C, then read C, B, A
+	vs := parseAll()
+	rs := make([]io.Reader, len(win))
+	for i := range win {
+		if vs[i] != nil {
+			rs[i] = formatReader(vs[i], win[i].b.Cfg)
+		}
+	}
+	texts := make([]string, len(win))
+	for i := len(win) - 1; i >= 0; i-- {
+		texts[i] = readAllSafe(rs[i])
+	}
+	judge("window", texts)
+	// concurrent: one goroutine per document, a barrier between formatting and reading
+	vs = parseAll()
+	var formatted, done sync.WaitGroup
+	formatted.Add(len(win))
+	done.Add(len(win))
+	ctexts := make([]string, len(win))
+	for i := range win {
+		go func(i int) {
+			defer done.Done()
+			var r io.Reader
+			if vs[i] != nil {
+				r = formatReader(vs[i], win[i].b.Cfg)
+			}
+			formatted.Done()
+			formatted.Wait()
+			ctexts[i] = readAllSafe(r)
+		}(i)
+	}
+	done.Wait()
+	judge("concurrent", ctexts)
+	return out
 }
